@@ -2,7 +2,9 @@ package main
 
 import (
 	"fmt"
+	"math/big"
 	"os"
+	"strings"
 )
 
 // Goal skolemisation and a small E-matching step modulo linear offsets.
@@ -185,6 +187,64 @@ func solveFor(T, k, E *Term) *Term {
 	return nil
 }
 
+// solveAll: candidates for k from T == E, looking through ite branches and n-ary sums.
+func solveAll(T, k, E *Term) []*Term {
+	if T.Op == "app" && T.Name == "ite" && len(T.Args) == 3 {
+		return append(solveAll(T.Args[1], k, E), solveAll(T.Args[2], k, E)...)
+	}
+	if T.Op == "app" && (T.Name == "+" || T.Name == "-") && T.Sort == "Int" && len(T.Args) >= 2 {
+		// linear: T = (sum of closed terms) + c*k  with c = +-1 ; solve via the normal form
+		l := newLin()
+		l.addTerm(T, big.NewInt(1))
+		if c, ok := l.coef[k.id]; ok && (c.Cmp(big.NewInt(1)) == 0 || c.Cmp(big.NewInt(-1)) == 0) {
+			open := false
+			for id, a := range l.atom {
+				if id != k.id && a.open {
+					// an atom containing k non-linearly (e.g. an ite): try its branches
+					if a.Op == "app" && a.Name == "ite" {
+						var out []*Term
+						for _, br := range a.Args[1:] {
+							m := map[*Term]*Term{a: br}
+							out = append(out, solveAll(Subst(T, m), k, E)...)
+						}
+						return out
+					}
+					open = true
+				}
+			}
+			if !open {
+				rest := newLin()
+				rest.addTerm(E, big.NewInt(1))
+				for id, a := range l.atom {
+					if id != k.id {
+						rest.addTerm(a, new(big.Int).Neg(l.coef[id]))
+					}
+				}
+				rest.k.Sub(rest.k, l.k)
+				r := rest.build()
+				if c.Sign() < 0 {
+					r = Neg(r)
+				}
+				return []*Term{r}
+			}
+		}
+		// k only inside an ite atom
+		for _, a := range l.atom {
+			if a.open && a.Op == "app" && a.Name == "ite" && mentions(a, k) {
+				var out []*Term
+				for _, br := range a.Args[1:] {
+					out = append(out, solveAll(Subst(T, map[*Term]*Term{a: br}), k, E)...)
+				}
+				return out
+			}
+		}
+	}
+	if r := solveFor(T, k, E); r != nil {
+		return []*Term{r}
+	}
+	return nil
+}
+
 type idxPattern struct {
 	path *Term
 	T    *Term
@@ -209,6 +269,15 @@ func findPatterns(body *Term, k *Term, out *[]idxPattern) {
 }
 
 func instantiateFacts(asserts []*Term, limit int) []*Term {
+	return instantiateFactsMode(asserts, limit, 0)
+}
+
+// instantiateFactsMode. mode 0: every candidate. mode 1: only candidates tied to the goal's skolem
+// constants, the quantifiers' own boundaries, and memory locations for location-sorted binders
+// (frame and well-formedness facts). mode 2: location-sorted binders only.
+func instantiateFactsMode(asserts []*Term, limit int, mode int) []*Term {
+	goalOnly := mode >= 1
+	heapOnly := mode == 2
 	have := map[int]bool{}
 	for _, a := range asserts {
 		have[a.id] = true
@@ -220,6 +289,7 @@ func instantiateFacts(asserts []*Term, limit int) []*Term {
 	pending := asserts
 	tried := map[[3]int]bool{} // (quantifier, binder, instance term)
 	unfoldDepth := map[int]int{}
+	perQ := map[[2]int]int{}
 	for round := 0; round < 5 && len(pending) > 0; round++ {
 		collectGround(pending, g)
 		// bounded unfolding of recursive specification functions
@@ -288,6 +358,12 @@ func instantiateFacts(asserts []*Term, limit int) []*Term {
 				return true
 			}
 			tried[key] = true
+			// no single quantified fact may use up the budget
+			pk := [2]int{gq.q.id, k.id}
+			perQ[pk]++
+			if perQ[pk] > 48 {
+				return true
+			}
 			var rest []*Term
 			for _, b := range gq.q.Binds {
 				if b != k {
@@ -302,47 +378,265 @@ func instantiateFacts(asserts []*Term, limit int) []*Term {
 			}
 			return added < limit
 		}
-	outer:
-		for _, gq := range qs {
+		// skolem constants of the goal are candidates for binders of the same source name
+		skolems := map[string][]*Term{}
+		{
+			seenK := map[int]bool{}
+			var walkK func(t *Term)
+			walkK = func(t *Term) {
+				if seenK[t.id] {
+					return
+				}
+				seenK[t.id] = true
+				if t.Op == "var" && t.Sort == "Int" && (strings.HasPrefix(t.Name, "wit_") || strings.HasPrefix(t.Name, "|wit_")) {
+					skolems["@wit"] = append(skolems["@wit"], t)
+				}
+				if t.Op == "var" && (strings.HasPrefix(t.Name, "sk_") || strings.HasPrefix(t.Name, "|sk_")) {
+					base := strings.TrimPrefix(strings.TrimPrefix(t.Name, "|"), "sk_")
+					if i := strings.Index(base, "!"); i > 0 {
+						base = base[:i]
+					}
+					skolems[base+"|"+t.Sort] = append(skolems[base+"|"+t.Sort], t)
+				}
+				for _, a := range t.Args {
+					walkK(a)
+				}
+			}
+			for _, a := range asserts {
+				walkK(a)
+			}
+		}
+		mentionsSkolem := func(t *Term) bool {
+			found := false
+			seenM := map[int]bool{}
+			var w func(x *Term)
+			w = func(x *Term) {
+				if found || seenM[x.id] {
+					return
+				}
+				seenM[x.id] = true
+				if x.Op == "var" {
+					n := strings.TrimPrefix(x.Name, "|")
+					if strings.HasPrefix(n, "sk_") || strings.HasPrefix(n, "wit_") {
+						found = true
+					}
+				}
+				for _, a := range x.Args {
+					w(a)
+				}
+			}
+			w(t)
+			return found
+		}
+		// ranked candidates of one binder: 0 goal skolems, 1 boundaries and matches that mention a
+		// skolem, 2 any other ground match
+		type cand struct {
+			t    *Term
+			rank int
+		}
+		candidatesOf := func(gq guardedQ, k *Term) []cand {
 			q := gq.q
-			for _, k := range q.Binds {
-				if k.Sort != "Int" {
-					sorts := selectSortsOf(q, k)
-					for so := range sorts {
-						for _, E := range g.selIdx[so] {
-							if !emit(gq, k, E) {
-								break outer
+			var out []cand
+			seenC := map[int]bool{}
+			add := func(t *Term, rank int) {
+				if t == nil || t.open || t.Sort != k.Sort || seenC[t.id] {
+					return
+				}
+				if tried[[3]int{q.id, k.id, t.id}] && len(q.Binds) == 1 {
+					return
+				}
+				seenC[t.id] = true
+				out = append(out, cand{t, rank})
+			}
+			kb := strings.TrimPrefix(k.Name, "|")
+			if i := strings.Index(kb, "!"); i > 0 {
+				kb = kb[:i]
+			}
+			sks := skolems[kb+"|"+k.Sort]
+			if k.Sort == "Int" {
+				// any integer skolem of the goal is a candidate (i/j/k are interchangeable names)
+				var allSk []*Term
+				seenSk := map[int]bool{}
+				for key, l := range skolems {
+					if strings.HasSuffix(key, "|Int") && key != "@wit" {
+						for _, t := range l {
+							if !seenSk[t.id] {
+								seenSk[t.id] = true
+								allSk = append(allSk, t)
 							}
+						}
+					}
+				}
+				if len(allSk) <= 6 {
+					sks = allSk
+				}
+			}
+			for _, sk := range sks {
+				add(sk, 0)
+				if k.Sort == "Int" {
+					for _, w := range skolems["@wit"] {
+						add(Add(sk, w), 0)
+					}
+				}
+			}
+			if k.Sort != "Int" {
+				for so := range selectSortsOf(q, k) {
+					for _, E := range g.selIdx[so] {
+						add(E, 1)
+					}
+				}
+				return out
+			}
+			for _, bnd := range boundsOf(q, k) {
+				add(bnd, 1)
+			}
+			for _, key := range ufArgPositions(q, k) {
+				add(IntLit(0), 2)
+				for _, E := range g.ufArg[key] {
+					r := 2
+					if mentionsSkolem(E) {
+						r = 1
+					}
+					add(E, r)
+				}
+			}
+			for _, p := range patternsOf(q, k) {
+				if p.path.open {
+					continue
+				}
+				for _, E := range g.byPath[p.path.id] {
+					r := 2
+					if mentionsSkolem(E) {
+						r = 1
+					}
+					for _, inst := range solveAll(p.T, k, E) {
+						add(inst, r)
+					}
+				}
+			}
+			return out
+		}
+		emitTuple := func(gq guardedQ, binds []*Term, vals []*Term) bool {
+			m := map[*Term]*Term{}
+			inB := map[*Term]bool{}
+			for i, b := range binds {
+				m[b] = vals[i]
+				inB[b] = true
+			}
+			var rest []*Term
+			for _, b := range gq.q.Binds {
+				if !inB[b] {
+					rest = append(rest, b)
+				}
+			}
+			full := Imp(gq.guard, Forall(rest, Subst(gq.q.Args[0], m)))
+			if !have[full.id] && full != True {
+				have[full.id] = true
+				news = append(news, full)
+				added++
+			}
+			return added < limit
+		}
+		// two passes: goal-directed tuples first, so that generic matches cannot starve them
+	outer:
+		for pass := 0; pass < 2; pass++ {
+			if goalOnly && pass == 1 {
+				break
+			}
+			for _, gq := range qs {
+				q := gq.q
+				if heapOnly {
+					skip := false
+					for _, b := range q.Binds {
+						if b.Sort == "Int" {
+							skip = true
+						}
+					}
+					if skip {
+						continue
+					}
+				}
+				if len(q.Binds) == 1 {
+					k := q.Binds[0]
+					for _, c := range candidatesOf(gq, k) {
+						if (pass == 0) != (c.rank <= 1) {
+							continue
+						}
+						if !emit(gq, k, c.t) {
+							break outer
 						}
 					}
 					continue
 				}
-				for _, key := range ufArgPositions(q, k) {
-					if k.Sort == "Int" && !emit(gq, k, IntLit(0)) {
-						break outer
-					}
-					for _, E := range g.ufArg[key] {
-						if E.Sort == k.Sort && !emit(gq, k, E) {
-							break outer
-						}
+				// several binders: instantiate them together
+				var binds []*Term
+				var lists [][]cand
+				for _, k := range q.Binds {
+					cs := candidatesOf(gq, k)
+					if len(cs) > 0 {
+						binds = append(binds, k)
+						lists = append(lists, cs)
 					}
 				}
-				pats := patternsOf(q, k)
-				for _, p := range pats {
-					if p.path.open {
-						continue
+				if len(binds) == 0 {
+					continue
+				}
+				product := 1
+				for _, l := range lists {
+					product *= len(l)
+					if product > 1<<20 {
+						break
 					}
-					cands := g.byPath[p.path.id]
-
-					for _, E := range cands {
-						inst := solveFor(p.T, k, E)
-						if inst == nil || inst.open {
+				}
+				maxGeneric := len(binds)
+				if product > 96 {
+					maxGeneric = 1 // at most one binder takes a match unrelated to the goal
+				}
+				partial := len(binds) < len(q.Binds)
+				vals := make([]*Term, len(binds))
+				count := 0
+				var rec func(i, generic int) bool
+				rec = func(i, generic int) bool {
+					if i == len(binds) {
+						if (pass == 0) != (generic == 0) {
+							return true
+						}
+						key := [3]int{q.id, -2, 0}
+						h := 17
+						for _, v := range vals {
+							h = h*1000003 + v.id
+						}
+						key[2] = h
+						if tried[key] {
+							return true
+						}
+						tried[key] = true
+						count++
+						if count > 160 {
+							return true
+						}
+						return emitTuple(gq, binds, vals)
+					}
+					for _, c := range lists[i] {
+						gnr := generic
+						if c.rank >= 2 {
+							gnr++
+						}
+						if gnr > maxGeneric || (partial && gnr > 0) {
 							continue
 						}
-						if !emit(gq, k, inst) {
-							break outer
+						vals[i] = c.t
+						if !rec(i+1, gnr) {
+							return false
+						}
+						if count > 160 {
+							break
 						}
 					}
+					return true
+				}
+				if !rec(0, 0) {
+					break outer
 				}
 			}
 		}
@@ -364,9 +658,64 @@ func instantiateFacts(asserts []*Term, limit int) []*Term {
 				fmt.Fprintf(os.Stderr, "   idx %s\n", t)
 			}
 		}
+		if os.Getenv("GOVC_DEBUG_INST") == "3" {
+			for _, gq := range qs {
+				n := 0
+				for _, b := range gq.q.Binds {
+					n += perQ[[2]int{gq.q.id, b.id}]
+				}
+				fmt.Fprintf(os.Stderr, "   Q[%d inst] guard=%.80s :: %.260s\n", n, gq.guard, gq.q)
+			}
+		}
 		fmt.Fprintf(os.Stderr, "inst: %d quantified facts, %d instances (limit %d), ground idx %d, selIdx %d\n", len(qs), added, limit, len(g.all), len(g.selIdx))
 	}
 	return asserts
+}
+
+var boundCache = map[[2]int][]*Term{}
+
+// boundsOf: closed boundary values of an Int binder found in the guard of a quantified fact.
+func boundsOf(q, k *Term) []*Term {
+	key := [2]int{q.id, k.id}
+	if b, ok := boundCache[key]; ok {
+		return b
+	}
+	var out []*Term
+	body := q.Args[0]
+	var guard *Term
+	if body.Op == "app" && body.Name == "=>" {
+		guard = body.Args[0]
+	}
+	var walk func(t *Term)
+	walk = func(t *Term) {
+		if t.Op == "app" && t.Name == "and" {
+			for _, a := range t.Args {
+				walk(a)
+			}
+			return
+		}
+		if t.Op == "app" && len(t.Args) == 2 && (t.Name == "<" || t.Name == "<=") {
+			a, b := t.Args[0], t.Args[1]
+			switch {
+			case a == k && !b.open && t.Name == "<":
+				out = append(out, Sub(b, IntLit(1)))
+			case a == k && !b.open && t.Name == "<=":
+				out = append(out, b)
+			case b == k && !a.open && t.Name == "<=":
+				out = append(out, a)
+			case b == k && !a.open && t.Name == "<":
+				out = append(out, Add(a, IntLit(1)))
+			}
+		}
+	}
+	if guard != nil && k.Sort == "Int" {
+		walk(guard)
+	}
+	if len(out) > 4 {
+		out = out[:4]
+	}
+	boundCache[key] = out
+	return out
 }
 
 var ufPosCache = map[[2]int][]string{}
